@@ -6,6 +6,14 @@ import (
 	"golang.org/x/exp/rand"
 )
 
+// ctxRandSrc 取得上下文的随机源，ctx为空或未设置种子时返回nil（Roll会退回到全局随机源）
+func ctxRandSrc(ctx *Context) *rand.PCGSource {
+	if ctx != nil {
+		return ctx.RandSrc
+	}
+	return nil
+}
+
 func funcComputedCompute(ctx *Context, this *VMValue, params []*VMValue) *VMValue {
 	return this.ComputedExecute(ctx, nil)
 }
@@ -59,7 +67,7 @@ func funcArrayShuttle(ctx *Context, this *VMValue, params []*VMValue) *VMValue {
 	arr, _ := this.ReadArray()
 	lst := arr.List
 	for i := len(lst) - 1; i > 0; i-- { // Fisher–Yates shuffle
-		j := rand.Intn(i + 1)
+		j := int(Roll(ctxRandSrc(ctx), IntType(i+1), 0)) - 1
 		lst[i], lst[j] = lst[j], lst[i]
 	}
 	return this
@@ -67,7 +75,7 @@ func funcArrayShuttle(ctx *Context, this *VMValue, params []*VMValue) *VMValue {
 
 func funcArrayRand(ctx *Context, this *VMValue, params []*VMValue) *VMValue {
 	arr, _ := this.ReadArray()
-	return arr.List[rand.Intn(len(arr.List))]
+	return arr.List[int(Roll(ctxRandSrc(ctx), IntType(len(arr.List)), 0))-1]
 }
 
 func funcArrayRandSize(ctx *Context, this *VMValue, params []*VMValue) *VMValue {
